@@ -27,6 +27,7 @@ def invoke(case, c, operands):
         # the first operand list *is* the circuit's own outputs list (what `c.outputs` hands out); with add_outputs
         # it grows while the gadget is built, which is the circuit's doing, so the no-modification guard does not apply
         return _invoke(case, c, [c.outputs] + [list(o) for o in operands[1:]])
+    gencommon.elsewhere_first(case, _invoke)
     guard = gencommon.OperandLists(operands, alias=case.get("alias", False))
     try:
         return _invoke(case, c, guard.lists)
